@@ -500,7 +500,7 @@ def compare(years=YEARS, reviewed=None):
             'gates': len(gates),
             'not_gates': len([g for g in notg if g in sv]),
             # a reviewed gate the survey no longer finds: the guard was dropped or rewritten
-            'gates_not_in_survey': sorted(g for g in gates if g not in sv),
+            'gates_not_in_survey': sorted(g for g in gates if g not in sv and not gates[g].get('derived')),
             # a reviewed gate whose input is not declared any more
             'gates_not_declared': sorted(g for g in gates if g not in declared),
             # survey inputs nobody classified
